@@ -131,15 +131,25 @@ def count_nodes(v):
 
 
 def strict_equal(a, b):
-    """Type-strict deep equality (1 != 1.0 != True), member order included, -0.0 != 0.0."""
-    if type(a) is not type(b):
-        return False
-    if isinstance(a, list):
-        return len(a) == len(b) and all(strict_equal(x, y) for x, y in zip(a, b))
-    if isinstance(a, dict):
-        return list(a.keys()) == list(b.keys()) and all(strict_equal(a[k], b[k]) for k in a)
-    if isinstance(a, float):
-        import math  # noqa: PLC0415
+    """Type-strict deep equality (1 != 1.0 != True), member order included, -0.0 != 0.0. Iterative."""
+    import math  # noqa: PLC0415
 
-        return a == b and math.copysign(1, a) == math.copysign(1, b)
-    return a == b
+    stack = [(a, b)]
+    while stack:
+        x, y = stack.pop()
+        if type(x) is not type(y):
+            return False
+        if isinstance(x, list):
+            if len(x) != len(y):
+                return False
+            stack.extend(zip(x, y))
+        elif isinstance(x, dict):
+            if list(x.keys()) != list(y.keys()):
+                return False
+            stack.extend((x[k], y[k]) for k in x)
+        elif isinstance(x, float):
+            if x != y or math.copysign(1, x) != math.copysign(1, y):
+                return False
+        elif x != y:
+            return False
+    return True
